@@ -1,0 +1,36 @@
+//go:build verif
+
+package portmapping
+
+import (
+	"fmt"
+	"sort"
+
+	utiliptables "tkestack.io/galaxy/pkg/utils/iptables"
+)
+
+// This file is compiled only with -tags verif. It exports what the verification harness under /verif needs;
+// it changes no behaviour.
+
+// VerifNew is New with an injected iptables handle.
+func VerifNew(ipt utiliptables.Interface, natInterfaceName string) *PortMappingHandler {
+	return &PortMappingHandler{
+		Interface:        ipt,
+		podPortMap:       make(map[string]map[hostport]closeable),
+		natInterfaceName: natInterfaceName,
+	}
+}
+
+// VerifHeldPorts lists the ports currently held open, as "pod proto:port", sorted.
+func (h *PortMappingHandler) VerifHeldPorts() []string {
+	h.Lock()
+	defer h.Unlock()
+	var out []string
+	for pod, ports := range h.podPortMap {
+		for hp := range ports {
+			out = append(out, fmt.Sprintf("%s %s:%d", pod, hp.protocol, hp.port))
+		}
+	}
+	sort.Strings(out)
+	return out
+}
